@@ -367,6 +367,10 @@ def run(model, col, tier):
     sc = model.cls(TYPES, "Scope")
     ff = sc.own_method("FindFunction")
     nested = {n.name: n for n in ast.walk(ff) if isinstance(n, ast.FunctionDef) and n is not ff}
+    # one-argument helpers used as sort key / filter predicate may equally live at module level or as (static) methods
+    for nm_, f_ in model.file(TYPES).functions.items():
+        if nm_ not in nested and len(f_.args.args) == 1 and any(isinstance(x, ast.Name) and x.id == nm_ for x in ast.walk(ff)):
+            nested[nm_] = f_
     ff_env = local_env(ff)
     fn_, at_ = ff.args.args[1].arg, ff.args.args[2].arg
     # the variable holding the ranking = the one whose [0][1] is returned
